@@ -28,22 +28,30 @@ class _Sock:
 
 
 class _Loop:
+    """deliveries: the arguments handed to Dispatcher.process, through call_soon (FIFO) or by a direct call"""
+
     def __init__(self):
         self.calls = []
+        self.routes = set()
 
     def call_soon(self, f, *a):
         self.calls.append(a)
+        self.routes.add("soon")
+
+    def direct(self, *a):
+        self.calls.append(a)
+        self.routes.add("direct")
 
 
 def poll(frames, prefix=b"", strict=False, deserializer=pickle.loads):
     d = object.__new__(RemoteDispatcher)
     d._prefix, d._strict, d._socket, d.loop, d._deserializer = prefix, strict, _Sock(frames), _Loop(), deserializer
-    d.process = lambda name, doc: None
+    d.process = d.loop.direct
     try:
         asyncio.run(d._poll())
         end = "returned"
     except _Done:
-        end = "consumed all frames"
+        end = "consumed all frames" if len(d.loop.routes) < 2 else "mixed delivery routes (order not kept)"
     except Bluesky0MQDecodeError:
         end = "Bluesky0MQDecodeError"
     except Exception as e:           # noqa
@@ -154,7 +162,7 @@ def battery():
     return [b"", b"nospace", b"one space", b"  ", b"p  x", b"p \xff\xfe x", b"p nosuchdoc " + good, b"p start notapickle",
             b"p start " + good, b" event " + pickle.dumps({"a b": " c  d "}), b"p start ", b"p start \x80\x04", b"p start " + good[:-3],
             b"p event " + _missing_class_pickle(), b"p event " + _missing_module_pickle(), b"pq start " + good, b"pq start notapickle",
-            b"p START " + good, b"p start" + good, b" start " + good, b"p\tstart\t" + good]
+            b"p START " + good, b"p start" + good, b" start " + good, b"p\tstart\t" + good, b"p start " + b"x y" * 1000, b"p stop " + b"\x80" * 1025]
 
 
 def malformed(model, info, art):
